@@ -800,6 +800,10 @@ class HttpStreamSession:
         ``cancel()``, the session is marked finished; further ``exchange()``
         or iteration raises ``RpcError``.
         """
+        # A cancelled session hands out nothing further -- including batches
+        # the init response preloaded and an error deferred behind them.
+        self._pending_batches.clear()
+        self._pending_error = None
         if self._finished or self._state_bytes is None:
             self._finished = True
             self._state_bytes = None
